@@ -847,6 +847,19 @@ fn hello_case_xml(c: &Value) -> String {
     };
     let tail = if c["decl"] == "trailing-comment" { "\n<!-- end -->\n" } else { "" };
     let full = format!("{xmldecl}<{p}hello {decl}>{capsel}{sids}</{p}hello>{tail}");
+    // the hello pretty-printed with every token on a line of its own, the line ends being CR LF (or bare CR)
+    let full = match c["decl"].as_str().unwrap_or("none") {
+        le @ ("crlf-layout" | "cr-layout") => {
+            let nl = if le == "crlf-layout" { "\r\n" } else { "\r" };
+            full.replace(&format!("<{p}capability>"), &format!("{nl}    <{p}capability>{nl}      "))
+                .replace(&format!("</{p}capability>"), &format!("{nl}    </{p}capability>"))
+                .replace(&format!("<{p}session-id>"), &format!("{nl}  <{p}session-id>{nl}    "))
+                .replace(&format!("</{p}session-id>"), &format!("{nl}  </{p}session-id>{nl}"))
+                .replace(&format!("<{p}capabilities>"), &format!("{nl}  <{p}capabilities>"))
+                .replace(&format!("</{p}capabilities>"), &format!("{nl}  </{p}capabilities>"))
+        }
+        _ => full,
+    };
     match shape {
         // content after the root element: not a well-formed document
         "trailing-text" => format!("{full}login: {EOM}"),
